@@ -249,3 +249,13 @@ package cisco
 //vc:func postprocessACLParts$6
 //vc:  assert[C18] at "parts[0], parts[1] = "#1 @anyMaskOfDialect parts[1] == ite(wildcard, "255.255.255.255", "0.0.0.0")
 //vc:  assert[C18] at "parts[0], parts[1] = "#2 @hostMaskOfDialect parts[1] == ite(wildcard, "0.0.0.0", "255.255.255.255")
+
+// ---- C16: the order in which unreferenced objects are deleted ----
+// deleteUnused sorts the keys of the map toDelete before emitting the delete
+// commands; the sorted order is independent of map iteration only if the
+// comparator separates different keys (a tie would keep Go's random map order).
+//vc:func (*State).deleteUnused$3
+//vc:  ensures[C16] @comparatorSeparatesKeys result == 0 ==> a[0] == b[0] && a[1] == b[1]
+
+// text handed to the device, a file or a log is never interpreted as a printf format
+//vc:constformat[C01,C02,C18]
